@@ -21,10 +21,14 @@ HOLE_RE = re.compile(r"⟦(\d+)⟧")
 class Native:
     """The real front end and the real interpreter, built from the overlay of /repo's current tree."""
 
-    def __init__(self):
-        self.overlay = ov.native_overlay()
-        self.bin = self.overlay.build_native()
-        self.bin_release = None
+    def __init__(self, bin_path=None, bin_release=None):
+        if bin_path is None:
+            self.overlay = ov.native_overlay()
+            self.bin = self.overlay.build_native()
+        else:
+            self.overlay = None
+            self.bin = bin_path
+        self.bin_release = bin_release
         p = subprocess.run([self.bin, "optable"], capture_output=True, text=True, timeout=30)
         self.optable = json.loads(p.stdout)
         self.calls = 0
@@ -49,6 +53,8 @@ class Native:
         binary = self.bin
         if release:
             if self.bin_release is None:
+                if self.overlay is None:
+                    return {"result": {"skipped": "no release binary in this worker"}, "output": ""}
                 self.bin_release = self.overlay.build_native(release=True)
             binary = self.bin_release
         try:
@@ -62,7 +68,8 @@ class Native:
         return json.loads(out.split("\n")[-1])
 
     def close(self):
-        self.overlay.cleanup()
+        if self.overlay is not None:
+            self.overlay.cleanup()
 
 
 # ------------------------------------------------------------------ skeleton instantiation
@@ -168,6 +175,27 @@ def out_differs(a, b):
     return seg_differs(a, b)
 
 
+def render(segs, model):
+    out = []
+    for s in segs:
+        if isinstance(s, str):
+            out.append(s)
+        elif s[0] == "int":
+            v = s[1]
+            out.append(str(model.eval(v, model_completion=True).as_signed_long() if is_sym(v) else v))
+        else:
+            v = s[1]
+            b = z3.is_true(model.eval(v, model_completion=True)) if is_sym(v) else bool(v)
+            out.append("ja" if b else "nee")
+    return "".join(out)
+
+
+class ByModel:
+    """outputs whose segment shapes differ: decided on a model of the path condition (witness search, incomplete)"""
+    def __init__(self, a, b):
+        self.a, self.b = a, b
+
+
 def compare(vm, ref):
     """-> (formula|True|False|None, text).  None = not comparable (masked / diverged / unsupported)."""
     if vm[0] in ("diverged", "undecided", "unsupported") or ref[0] in ("diverged", "undecided", "unsupported"):
@@ -179,7 +207,9 @@ def compare(vm, ref):
         od = out_differs(vm[2], ref[2])
         if od is True:
             return True, "printed output differs"
-        if od is not None and od is not False:
+        if od is None:
+            return ByModel(vm[2], ref[2]), "printed output differs"
+        if od is not False:
             parts.append(od)
         if vm[3] != 0:
             return True, "operand stack holds %d slot(s) at Halt (residue)" % vm[3]
@@ -198,7 +228,9 @@ def compare(vm, ref):
         od = out_differs(vm[2], ref[2])
         if od is True:
             return True, "output before the error differs"
-        if od is not None and od is not False:
+        if od is None:
+            return ByModel(vm[2], ref[2]), "output before the error differs"
+        if od is not False:
             return od, "output before the error differs for some hole values"
         return False, "agree"
     if vm[0] == "ok" and ref[0] == "err":
@@ -209,8 +241,10 @@ def compare(vm, ref):
 
 
 class SkeletonChecker:
-    def __init__(self, native, max_steps=400, max_paths=256, pattern_limit=12, solver_timeout_ms=10000):
+    def __init__(self, native, max_steps=400, max_paths=256, pattern_limit=12, solver_timeout_ms=10000, skeleton_budget_s=40):
         self.native = native
+        self.skeleton_budget_s = skeleton_budget_s
+        self.deadline = None
         self.max_steps = max_steps
         self.max_paths = max_paths
         self.pattern_limit = pattern_limit
@@ -227,12 +261,14 @@ class SkeletonChecker:
     def check(self, skel, expect_compile_error=None, oracle="ref", variant_of=None):
         """Explore all paths of all equality patterns of one skeleton; return list of Findings (unconfirmed)."""
         self.stats["skeletons"] += 1
+        self.deadline = time.time() + self.skeleton_budget_s
         hs = hole_ids(skel)
         base = {h: ("class", i) for i, h in enumerate(hs)}
         d0 = self.native.dump_many([instantiate(skel, base)])[0]
         if "ast" not in d0:
             # does not parse: outside the claim of the S engine (front end), recorded
-            self.stats["compile_errors"] += 1
+            self.stats["parse_errors"] = self.stats.get("parse_errors", 0) + 1
+            self.parse_error_names = getattr(self, "parse_error_names", []) + [skel[:80]]
             return []
         lits = [v for v in fixed_int_literals(d0["ast"]) if v <= MAX_INT]
         pats = patterns_for(hs, lits, self.pattern_limit)
@@ -240,6 +276,9 @@ class SkeletonChecker:
         dumps = self.native.dump_many(srcs)
         findings = []
         for pat, src, d in zip(pats, srcs, dumps):
+            if time.time() > self.deadline:
+                self.stats["truncated"] += 1
+                break
             self.stats["programs"] += 1
             findings += self.check_program(skel, pat, src, d)
         return findings
@@ -296,6 +335,9 @@ class SkeletonChecker:
 
         for vm_out, ctx in eng.explore(run_vm, self.max_paths):
             self.stats["vm_paths"] += 1
+            if time.time() > self.deadline:
+                eng.truncated = True
+                break
             if vm_out[0] == "undecided":
                 self.stats["undecided"] += 1
                 continue
@@ -316,7 +358,14 @@ class SkeletonChecker:
                 self.stats["compared"] += 1
                 if f is False:
                     continue
-                if f is True:
+                if isinstance(f, ByModel):
+                    r = eng.check()
+                    if r == z3.sat:
+                        mdl = eng.solver.model()
+                        if render(f.a, mdl) == render(f.b, mdl):
+                            self.stats["undecided"] += 1
+                            continue
+                elif f is True:
                     r = eng.check()
                 else:
                     r = eng.check(f)
@@ -388,15 +437,17 @@ def out_text(segs):
     return "".join(s if isinstance(s, str) else "<?>" for s in segs)
 
 
-def confirm(native, finding):
+def confirm(native, finding, profiles=("dev", "release")):
     """Replay a candidate against the real interpreter (dev and release). Sets finding.confirmed / finding.native."""
     src = finding.source
     ref, d = ref_concrete(native, src)
     res = {}
     confirmed = False
     why = []
-    for prof in ("dev", "release"):
+    for prof in profiles:
         j = native.eval_one(src, release=(prof == "release"))
+        if "skipped" in j["result"]:
+            continue
         no = native_outcome(j)
         res[prof] = {"outcome": repr(no)[:300], "output": j.get("output", "")[:300]}
         if no[0] in ("panic", "abort", "hang"):
